@@ -3,23 +3,38 @@ from vf import Check, Stream, first_diff, build_harness, build_libnstd, run_exe_
 
 NV = 6
 FLAVS = ('str', 'var', 'ptr', 'xml')
+KINDS = {'str': ['-'], 'var': ['list', 'map', 'array', 'string'], 'ptr': ['plain', 'conv'], 'xml': ['element', 'text']}
+CONC_KINDS = {'str': ['-'], 'var': ['list', 'map', 'array', 'string'], 'ptr': ['plain'], 'xml': ['element']}
 
 
-def applicable(f):
+def digits(rng, n):
+    """contents: n markers 1..7 ('-' = empty)"""
+    return ''.join(str(rng.randrange(1, 8)) for _ in range(n)) or '-'
+
+
+def applicable(f, kind='-'):
     ops = ['create', 'null', 'copy', 'assign', 'reset', 'destroy']
     if f == 'ptr':
-        ops += ['swap', 'fromraw']
+        ops += ['swap', 'fromraw', 'assignraw']
+    elif f == 'xml' and kind == 'text':
+        ops += ['assignval']
     else:
         ops += ['write', 'detach']
+        if f == 'var':
+            ops += ['assignval']
+        if not (f == 'var' and kind == 'string') and f != 'str':
+            ops += ['viaelem']
     return ops
 
 
-def gen_history(rng, f, n, nv=NV, valid=0.93):
+def gen_history(rng, f, n, nv=NV, valid=0.93, kind=None):
     """mostly valid history: tracks which variables are constructed; 1-valid of the ops ignore it"""
+    kind = kind or rng.choice(KINDS[f])
     live = [False] * nv
     ops = []
-    kinds = applicable(f)
-    w = {'create': 2, 'null': 1, 'copy': 5, 'assign': 5, 'reset': 2, 'destroy': 3, 'swap': 3, 'fromraw': 2, 'write': 4, 'detach': 2}
+    kinds = applicable(f, kind)
+    w = {'create': 2, 'null': 1, 'copy': 5, 'assign': 5, 'reset': 2, 'destroy': 3, 'swap': 3, 'fromraw': 2, 'write': 4, 'detach': 2,
+         'assignraw': 3, 'assignval': 3, 'viaelem': 3}
     for _ in range(n):
         k = rng.choices(kinds, [w[x] for x in kinds])[0]
         lv = [i for i in range(nv) if live[i]]
@@ -37,7 +52,7 @@ def gen_history(rng, f, n, nv=NV, valid=0.93):
                 if not dv or not lv:
                     continue
                 a, b = rng.choice(dv), rng.choice(lv)
-            elif k in ('assign', 'swap'):
+            elif k in ('assign', 'swap', 'assignraw', 'viaelem'):
                 if not lv:
                     continue
                 a, b = rng.choice(lv), rng.choice(lv)
@@ -46,7 +61,10 @@ def gen_history(rng, f, n, nv=NV, valid=0.93):
                     continue
                 a = b = rng.choice(lv)
         if k == 'create':
-            ops.append('create %d %d' % (a, rng.choice([0, 1, 2, 3, 4, 6, 7, 8])))
+            if f == 'ptr':
+                ops.append('create %d %d' % (a, rng.randrange(0, 100)))
+            else:
+                ops.append('create %d %s' % (a, digits(rng, rng.choice([0, 1, 2, 3, 4, 6, 7, 8]))))
             if 0 <= a < nv:
                 live[a] = True
         elif k == 'null':
@@ -56,25 +74,35 @@ def gen_history(rng, f, n, nv=NV, valid=0.93):
             ops.append('%s %d %d' % (k, a, b))
             if not live[a] and live[b]:
                 live[a] = True
-        elif k in ('assign', 'swap'):
+        elif k in ('assign', 'swap', 'assignraw', 'viaelem'):
             ops.append('%s %d %d' % (k, a, b))
         elif k == 'destroy':
             ops.append('destroy %d' % a)
             live[a] = False
+        elif k == 'write':
+            ops.append('write %d %d' % (a, rng.randrange(1, 8)))
+        elif k == 'assignval':
+            ops.append('assignval %d %s' % (a, digits(rng, rng.choice([0, 1, 2, 3, 5]))))
         else:
             ops.append('%s %d' % (k, a))
-    return ['@' + f] + ops
+    return ['@%s %s' % (f, kind)] + ops
 
 
-def small_alphabet(f, nv):
+def small_alphabet(f, nv, kind='-'):
     al = []
     for v in range(nv):
-        al += ['create %d 3' % v, 'null %d' % v, 'reset %d' % v, 'destroy %d' % v]
-        if f != 'ptr':
-            al += ['write %d' % v, 'detach %d' % v]
+        al += ['create %d 123' % v, 'null %d' % v, 'reset %d' % v, 'destroy %d' % v]
+        if 'write' in applicable(f, kind):
+            al += ['write %d %d' % (v, 4 + v), 'detach %d' % v]
+        if 'assignval' in applicable(f, kind):
+            al += ['assignval %d 7%d' % (v, 1 + v)]
     for a in range(nv):
         for b in range(nv):
             al.append('assign %d %d' % (a, b))
+            if f == 'ptr':
+                al.append('assignraw %d %d' % (a, b))
+            if 'viaelem' in applicable(f, kind):
+                al.append('viaelem %d %d' % (a, b))
             if a != b:
                 al.append('copy %d %d' % (a, b))
                 if f == 'ptr':
@@ -89,8 +117,8 @@ def gen_thread_prog(rng, f, nv, own, n, valid=0.95):
     """program of one thread over its own variables 0..nv-1, the first `own` of which hold the common payload"""
     live = [i < own for i in range(nv)]
     ops = []
-    kinds = ['copy', 'assign', 'drop', 'read'] + (['swap'] if f == 'ptr' else ['write', 'write'])
-    w = {'copy': 4, 'assign': 3, 'drop': 3, 'read': 2, 'swap': 2, 'write': 4}
+    kinds = ['copy', 'assign', 'drop', 'read', 'reset'] + (['swap'] if f == 'ptr' else ['write', 'write', 'reserve'])
+    w = {'copy': 4, 'assign': 3, 'drop': 3, 'read': 2, 'swap': 2, 'write': 4, 'reserve': 1, 'reset': 2}
     for _ in range(n):
         k = rng.choices(kinds, [w[x] for x in kinds])[0]
         lv = [i for i in range(nv) if live[i]]
@@ -115,14 +143,14 @@ def gen_thread_prog(rng, f, nv, own, n, valid=0.95):
                 live[a] = True
         elif k in ('assign', 'swap'):
             ops.append('%s %d %d' % (k, a, b))
-        elif k == 'drop':
-            ops.append('drop %d' % a)
+        elif k in ('drop', 'reset'):
+            ops.append('%s %d' % (k, a))
             if a < nv:
                 live[a] = False
         elif k == 'write':
-            ops.append('write %d%s' % (a, ' force' if f == 'str' and rng.random() < 0.25 else ''))
+            ops.append('write %d %d' % (a, rng.randrange(1, 8)))
         else:
-            ops.append('read %d' % a)
+            ops.append('%s %d' % (k, a))
     return ops
 
 
@@ -146,13 +174,18 @@ def gen_schedule(rng, nth, npoints, style):
     return s
 
 
+def conc_head(rng, f, kind=None):
+    return '@c%s %s' % (f, kind or rng.choice(CONC_KINDS[f]))
+
+
 def gen_conc(rng, f, free=False):
     nth = rng.choice([2, 2, 3, 3, 4])
     nv = rng.choice([2, 3, 3, 4, 5])
     owns = [rng.choice([1, 1, 1, 2, 0]) for _ in range(nth)]
     if sum(owns) == 0:
         owns[0] = 1
-    case = ['@c' + f, 'init %d %d %s' % (rng.choice([0, 1, 2, 3, 5, 8]), nv, ' '.join(map(str, owns)))]
+    val = str(rng.randrange(0, 100)) if f == 'ptr' else digits(rng, rng.choice([0, 1, 2, 3, 3, 5, 7, 8]))
+    case = [conc_head(rng, f), 'init %s %d %s' % (val, nv, ' '.join(map(str, owns)))]
     total = 0
     for t in range(nth):
         p = gen_thread_prog(rng, f, nv, owns[t], rng.randrange(1, 11))
@@ -162,15 +195,16 @@ def gen_conc(rng, f, free=False):
         case.append('free %d' % rng.choice([2, 3, 5]))
     else:
         for _ in range(rng.choice([1, 2, 3])):
-            s = gen_schedule(rng, nth, 4 * total + 4, rng.choice(['uniform', 'bursty', 'preempt']))
+            s = gen_schedule(rng, nth, min(60, 4 * total + 4), rng.choice(['uniform', 'bursty', 'preempt']))
             case.append('go ' + ' '.join(map(str, s)))
     return case
 
 
 CONC_UNITS = {   # the building blocks of the exhaustive scope (variable 0 holds the payload)
-    'write': ['write 0'], 'drop': ['drop 0'], 'copydrop': ['copy 1 0', 'drop 0'], 'self': ['assign 0 0'],
-    'writedrop': ['write 0', 'drop 0'], 'copywrite': ['copy 1 0', 'write 1'], 'read': ['read 0', 'drop 0'],
-    'assign2': ['copy 1 0', 'write 1', 'assign 0 1'], 'force': ['write 0 force', 'drop 0'],
+    'write': ['write 0 5'], 'drop': ['drop 0'], 'copydrop': ['copy 1 0', 'drop 0'], 'self': ['assign 0 0'],
+    'writedrop': ['write 0 6', 'drop 0'], 'copywrite': ['copy 1 0', 'write 1 7'], 'read': ['read 0', 'drop 0'],
+    'assign2': ['copy 1 0', 'write 1 4', 'assign 0 1'], 'reserve': ['reserve 0', 'drop 0'], 'reset': ['reset 0'],
+    'copyreset': ['copy 1 0', 'reset 1', 'reset 0'],
 }
 
 
@@ -178,11 +212,11 @@ def conc_exhaustive(f, depth, per_case=64):
     """two threads, one handle each to the common payload, every pair of unit programs, every schedule in {0,1}^depth
     (at most per_case schedules in one case: the framework budgets about 50 ms per case)"""
     cases = []
-    units = [u for u in CONC_UNITS if not (f == 'ptr' and ('write' in u or u in ('force', 'assign2')))]
+    units = [u for u in CONC_UNITS if not (f == 'ptr' and ('write' in u or u in ('reserve', 'assign2')))]
     scheds = [' '.join(map(str, s)) for s in itertools.product((0, 1), repeat=depth)]
     for a in units:
         for b in units:
-            head = ['@c' + f, 'init 3 2 1 1'] + ['t 0 ' + o for o in CONC_UNITS[a]] + ['t 1 ' + o for o in CONC_UNITS[b]]
+            head = ['@c' + f, 'init %s 2 1 1' % ('3' if f == 'ptr' else '12')] + ['t 0 ' + o for o in CONC_UNITS[a]] + ['t 1 ' + o for o in CONC_UNITS[b]]
             for i in range(0, len(scheds), per_case):
                 cases.append(head + ['go ' + s for s in scheds[i:i + per_case]])
     return cases
@@ -193,32 +227,58 @@ class C09(Check):
     comp = 'Rc'
     extracted = ['coq/Rc/model.mli', 'coq/Rc/model.ml', 'ocaml/zconv.ml', 'ocaml/rc_driver.ml']
     harness_sources = ['harness/rc.cpp']
+    harness_link_flags = ['-Wl,--wrap=_ZN6Memory4copyEPvPKvm']      # Memory::copy out of a payload block is a trace event
     per_case_timeout = 20
-    level_text = ('Proved in Coq for the model: (sequential) for every history of create/null/copy/fromraw/assign/reset/swap/write/detach/destroy '
+    level_text = ('Proved in Coq for the model: (sequential) for every history of create/null/copy/fromraw/assign/assignraw/assignval/reset/swap/write/detach/destroy '
                   'on String, Variant, RefCount::Ptr and Xml::Variant handles the counter of a payload equals the number of live handles referring to it, '
                   'a payload is released exactly once, exactly when its last handle goes, never accessed afterwards and modified in place only while '
-                  'exactly one handle refers to it, and the values read through the handles are those of the value-semantics Spec (a write through one handle changes no other); (concurrent) release/counting safety for EVERY schedule of the interleaving machine in which threads owning '
-                  'distinct handles to a common payload copy, assign, swap, modify, read and drop them, each call split into its atomic '
-                  'increment / decrement-and-test / plain read `ref == 1` accesses, plus completion: every schedule that lets each thread finish '
-                  'ends with released <-> no handle left.')
+                  'exactly one handle refers to it, and the CONTENTS read through the handles (for Ptr: the identities of the objects) are those of the '
+                  'value-semantics Spec over whole histories (a write through one handle changes no other); (concurrent) release/counting safety for EVERY '
+                  'schedule of the interleaving machine in which threads owning distinct handles to a common payload copy, assign, swap, modify '
+                  '(append / write access only / String::clear), read and drop them, each call split into its atomic increment / decrement-and-test / '
+                  'plain read `ref == 1` accesses, plus completion: every schedule that lets each thread finish ends with released <-> no handle left; '
+                  'and every access trace of the implementation that the acceptor RcConc.replay accepts is a run of that machine.')
     level_note = ('partial: the concurrent clause is proved for the interleaving model under sequential consistency with the __sync builtins as '
-                  'atomic steps (hardware/compiler memory ordering is outside the model) and is validated on the implementation only on the '
-                  'schedules actually run: baton-passing real threads switched at the scheduling points placed before and after every atomic '
-                  'operation (schedules generated, 2-thread scope exhaustive up to the stated depth) and free-running real threads on the schedules '
-                  'the OS produced, all under ASan/UBSan; the free-running scenarios are also run under TSan as a search oracle only (a plain write racing with an atomic access counts; the plain reads of `ref` that TSan reports on the unchanged code are the part that sequential consistency assumes away). The values read through the handles are proved equal to the value-semantics Spec for sequential histories '
-                  '(refinement theorem); for the concurrent machine they are validated by correspondence only (no theorem). Nested Variant payloads (handles inside payloads) are '
-                  'not modelled; String/Variant constructors from literals (uncounted inline data) are outside the model.')
-    technique = ('machine-checked proof (Coq 8.16) about an executable model (sequential handle/block machine + interleaving machine) + differential '
-                 'correspondence (ASan/UBSan): sequential histories op by op, concurrent scenarios with real threads under a baton-passing scheduler '
-                 'hooked at every atomic operation and free-running')
-    rule = ('sequential cases = handle histories (create/null/copy/fromraw/assign/reset/swap/write/detach/destroy) on 6 variables of one '
-            'handle type (String, Variant holding a list, RefCount::Ptr<T>, Xml::Variant holding an element); non-trivial when some payload was shared by '
-            'two live variables (a reference counter of 2 or more was observed) and at least one payload was released. '
-            'concurrent cases = 2-4 threads owning 0-2 handles each to one common payload, programs of copy/assign/drop/write/read/swap over their own '
-            'variables, 1-3 explicit schedules (`go`) or free runs; non-trivial when at least two threads execute a counting call (copy, assign, drop, write). '
-            'distinct = distinct op text')
+                  'atomic steps (hardware/compiler memory ordering is outside the model). It is tied to the implementation on the schedules actually '
+                  'run: baton-passing real threads switched at the scheduling points placed before and after every atomic operation (schedules '
+                  'generated, 2-thread scope exhaustive up to the stated depth); on each of them the harness records the access trace of the real code '
+                  '(atomic increment/decrement with the value returned, allocation and release of a payload block, copy out of the old payload, in-place '
+                  'modification with the resulting contents, and the counter as a write access is entered) and the extracted RcConc.replay must accept it '
+                  'event by event (kind and result), else the case fails. NOT observed: the plain reads of `ref` in front of an atomic operation and the '
+                  'plain reads of the payload other than Memory::copy / the container copy (their place in the order is tied only through the branch '
+                  'they decide and through ASan when they hit released memory); the counter value of an `r` event is read by the harness in the same '
+                  'scheduling segment as the library reads it, not by the library. Scope of the concurrent model: there is no scheduling point between '
+                  'the plain read `ref == 1` and the in-place write that follows it (the machine allows other threads in between, the harness never '
+                  'produces that); the in-place write, together with String\'s read of length and capacity, is one atomic step; Variant::clear / '
+                  'Xml::Variant::clear / `p = 0` are driven concurrently as what the destructor does (they are the same code), String::clear as clear '
+                  'followed by the destructor; handles never travel between threads. Free-running real threads (schedules the OS produced) under '
+                  'ASan/UBSan are compared on their end state only; they are also run under TSan as a search oracle only (a plain write racing with an '
+                  'atomic access counts; the plain reads of `ref` that TSan reports on the unchanged code are the part that sequential consistency assumes '
+                  'away). The contents read through the handles are proved equal to the value-semantics Spec for sequential histories; for the concurrent '
+                  'machine they are validated by correspondence only (no theorem). "Released" for Variant / Xml::Variant payloads is observed on ALL '
+                  'allocations made inside the library calls: after every operation the blocks allocated for payloads must be exactly those reachable '
+                  'from the live payloads. One payload type per case (Variant: list, map, array or string; Xml::Variant: element or text): a write access '
+                  'through the accessor of another type than the one stored (type-changing branch) is not driven; Xml::Variant text payloads have no '
+                  'write accessor (value assignment only), element payloads no value assignment. Nested Variant payloads (handles inside payloads) are not '
+                  'modelled; String/Variant constructors from literals (uncounted inline data) are outside the model. The converting '
+                  'Ptr(const Ptr<D>&) / operator=(const Ptr<D>&) are driven in sequential cases only (kind conv).')
+    technique = ('machine-checked proof (Coq 8.16) about an executable model (sequential handle/block machine + interleaving machine + trace acceptor) + differential '
+                 'correspondence (ASan/UBSan): sequential histories op by op with contents and a ledger of every allocation, concurrent scenarios with real '
+                 'threads under a baton-passing scheduler hooked at every atomic operation whose recorded access trace is replayed step by step through the '
+                 'extracted machine, and free-running threads compared on their end state')
+    rule = ('sequential cases = handle histories (create/null/copy/fromraw/assign/assignraw/assignval/reset/swap/write/detach/destroy) on 6 variables of one '
+            'handle type (String; Variant holding a list, map, array or string; RefCount::Ptr<T>, plain or through Ptr<Derived>; Xml::Variant holding an element '
+            'or a text); non-trivial when some payload was shared by two live variables (a reference counter of 2 or more was observed) and at least one '
+            'payload was released. concurrent cases = 2-4 threads owning 0-2 handles each to one common payload, programs of '
+            'copy/assign/drop/write/reserve/reset/read/swap over their own variables, 1-3 explicit schedules (`go`, access trace replayed) or free runs; '
+            'non-trivial when at least two threads execute a counting call (copy, assign, drop, write, reserve, reset). distinct = distinct op text')
     assumptions = ['sequential consistency of the __sync_* builtins and of the plain reads of `ref` (concurrent clause)',
                    'operator new / delete[] behave as allocation and release of disjoint blocks']
+
+    def __init__(self):
+        Check.__init__(self)
+        self._impl_by_key = {}
+        self._model_by_key = {}
 
     def run_impl(self, cases, tag='impl'):
         # chunks: a broken tree may crash on most cases of an exhaustive stream; every crash restarts the
@@ -231,7 +291,39 @@ class C09(Check):
             res += r
             for k, v in c.items():
                 crashes[i + k] = v
+        self._impl_by_key = {'\n'.join(c): o for c, o in zip(cases, res)}
         return res, crashes
+
+    # the model driver gets, in front of every `go`, the access trace the harness recorded for it
+    def with_traces(self, cases):
+        out = []
+        for c in cases:
+            if not (c and c[0].startswith('@c')):
+                out.append(c)
+                continue
+            obs = self._impl_by_key.get('\n'.join(c))
+            if obs is None:
+                out.append(c)
+                continue
+            nc = [c[0]]
+            for i, line in enumerate(c[1:]):
+                if line.startswith('go') and i < len(obs) and ' | trace ' in obs[i]:
+                    nc.append('trace ' + obs[i].split(' | trace ', 1)[1])
+                nc.append(line)
+            out.append(nc)
+        return out
+
+    def run_model(self, cases, tag='model'):
+        res = Check.run_model(self, self.with_traces(cases), tag)
+        self._model_by_key = {'\n'.join(c): o for c, o in zip(cases, res)}
+        return res
+
+    def property_fails(self, case):
+        impl, _ = self.run_impl([case], tag='shr_impl')
+        self.run_model([case], tag='shr_model')
+        spec = self.run_spec([case], tag='shr_spec')
+        f = self.judge([case], impl, spec)
+        return f[0] if f else None
 
     # ---- TSan, as search only -----------------------------------------------------------------
     # A report counts when a plain (non-atomic) WRITE races with an atomic access or with another plain
@@ -283,7 +375,8 @@ class C09(Check):
         if not lib:
             log('[C09] TSan search skipped: libnstd does not build with -fsanitize=thread')
             return
-        exe, l = build_harness(self.id, self.harness_sources, lib, extra_flags=['-fsanitize=thread'], variant='tsan', name='harness_tsan')
+        exe, l = build_harness(self.id, self.harness_sources, lib, extra_flags=['-fsanitize=thread'], link_flags=self.harness_link_flags,
+                               variant='tsan', name='harness_tsan')
         if not exe:
             log('[C09] TSan search skipped: harness does not build with -fsanitize=thread: ' + l[-500:])
             return
@@ -309,37 +402,52 @@ class C09(Check):
         ctx['violations'].append((p, ''))
 
     # ---- oracle -------------------------------------------------------------------------------
+    TAGS = {
+        'runs': 'RUNS-DISAGREE   runs of the same threads disagree or a destroyed object was read ...................... ',
+        'leak': 'LEAK-AT-END     payload blocks still live after every handle was destroyed ................................ ',
+        'live': 'LIVE-VS-HANDLES live payload blocks differ from the number of distinct payloads the live handles refer to ... ',
+        'aux':  'PAYLOAD-PARTS   blocks allocated for payloads are not exactly those reachable from the live payloads ........ ',
+        'after': 'LEAK-AFTER-JOIN blocks still allocated after every thread handle was destroyed ........................... ',
+        'trace': 'ACCESS-TRACE    the access trace of the implementation is not a run of the interleaving machine (RcConc.replay) ',
+    }
+
     def judge(self, cases, impl_obs, spec_obs):
         fails = Check.judge(self, cases, impl_obs, spec_obs)
         bad = {i for (i, _, _) in fails}
         for i, obs in enumerate(impl_obs):
             if i in bad:
                 continue
+            model = self._model_by_key.get('\n'.join(cases[i]), [])
             for k, line in enumerate(obs):
                 if line.startswith('!') or line.startswith('?'):
                     continue
                 if 'DIFFERENT-RUNS' in line or 'BADCANARY' in line:
-                    fails.append((i, k, 'runs of the same threads disagree or a destroyed object was read: `%s`' % line[:300]))
+                    fails.append((i, k, self.TAGS['runs'] + '`%s`' % line[:300]))
                     break
                 sec = line.split(' | ')
-                m = re.match(r'live=(-?\d+)( dtors=(-?\d+))?$', sec[1]) if len(sec) > 1 else None
+                m = re.match(r'live=(-?\d+)(?: dtors=(-?\d+))?(?: aux=(\S+))?$', sec[1]) if len(sec) > 1 else None
                 if not m:
                     continue
                 livecnt = int(m.group(1))
+                if m.group(3) not in (None, 'ok'):
+                    fails.append((i, k, self.TAGS['aux'] + '`%s`' % sec[1]))
+                    break
                 if sec[0] == 'end':
                     if livecnt != 0:
-                        fails.append((i, k, 'payload blocks still live after every handle was destroyed: live=%d' % livecnt))
+                        fails.append((i, k, self.TAGS['leak'] + 'live=%d' % livecnt))
                         break
                     continue
                 if len(sec) < 3:
                     continue
                 classes = {c for c in sec[2].split(' ') if c not in ('.', ';', '')}
                 if livecnt != len(classes):
-                    fails.append((i, k, 'live payload blocks (%d) differ from the number of distinct payloads the live handles refer to (%d): `%s`'
-                                  % (livecnt, len(classes), line)))
+                    fails.append((i, k, self.TAGS['live'] + '(%d vs %d): `%s`' % (livecnt, len(classes), ' | '.join(sec[:4]))))
                     break
                 if len(sec) >= 5 and sec[4].startswith('after=') and sec[4] != 'after=0':
-                    fails.append((i, k, 'payload blocks still allocated after every thread handle was destroyed: %s' % sec[4]))
+                    fails.append((i, k, self.TAGS['after'] + sec[4]))
+                    break
+                if k < len(model) and model[k].startswith('! trace-'):
+                    fails.append((i, k, self.TAGS['trace'] + '%s ; trace: %s' % (model[k][2:], sec[5][6:300] if len(sec) > 5 else '')))
                     break
         return fails
 
@@ -348,7 +456,7 @@ class C09(Check):
             counting = set()
             for l in case:
                 t = l.split()
-                if len(t) >= 3 and t[0] == 't' and t[2] in ('copy', 'assign', 'drop', 'write'):
+                if len(t) >= 3 and t[0] == 't' and t[2] in ('copy', 'assign', 'drop', 'write', 'reserve', 'reset'):
                     counting.add(t[1])
             return len(counting) >= 2
         shared = False
@@ -368,7 +476,7 @@ class C09(Check):
         out = []
         for f in FLAVS:
             cases = [gen_history(rng, f, rng.randrange(4, 45)) for _ in range(2500 if thorough else 400)]
-            out.append(Stream('hist_' + f, cases, note='mostly valid random histories, 6 variables'))
+            out.append(Stream('hist_' + f, cases, note='mostly valid random histories, 6 variables, payload type drawn per case'))
         cases = [gen_history(rng, rng.choice(FLAVS), rng.randrange(4, 30), valid=0.5) for _ in range(1500 if thorough else 300)]
         out.append(Stream('malformed', cases, note='half of the ops ignore which variables are constructed (both sides skip them)'))
         # boundary: few variables so that counts go up and down through 1 and 2 all the time
@@ -377,24 +485,27 @@ class C09(Check):
             for _ in range(1500 if thorough else 250):
                 cases.append(gen_history(rng, f, rng.randrange(6, 30), nv=rng.choice([2, 3]), valid=0.97))
         cases += self.targeted()
-        out.append(Stream('boundary', cases, note='2-3 variables; targeted: self assignment, assignment of null, capacity boundary, swap then destroy'))
+        out.append(Stream('boundary', cases, note='2-3 variables; targeted: self assignment (also through a raw pointer), assignment of null, capacity boundary, value assignment while shared, swap then destroy'))
         # exhaustive small scope
         depth = 4 if thorough else 3
         for f in FLAVS:
-            al = small_alphabet(f, 2)
             cases = []
-            for tup in itertools.product(al, repeat=depth):
-                cases.append(['@' + f, 'create 0 3'] + list(tup))
+            notes = []
+            for kind in (KINDS[f] if thorough else KINDS[f][:2]):
+                al = small_alphabet(f, 2, kind)
+                notes.append('%s: %d letters' % (kind, len(al)))
+                for tup in itertools.product(al, repeat=depth):
+                    cases.append(['@%s %s' % (f, kind), 'create 0 123'] + list(tup))
             out.append(Stream('exh_' + f, cases, exhaustive=False,
-                              note='every sequence of %d ops over 2 variables after `create 0 3` (%d-letter alphabet)' % (depth, len(al))))
-        # concurrent: explicit schedules (baton passing at every atomic operation)
+                              note='every sequence of %d ops over 2 variables after `create 0 123` (%s)' % (depth, '; '.join(notes))))
+        # concurrent: explicit schedules (baton passing at every atomic operation), access trace replayed
         for f in FLAVS:
             cases = [gen_conc(rng, f) for _ in range(1500 if thorough else 500)]
-            out.append(Stream('conc_' + f, cases, note='2-4 real threads, 1-3 generated schedules each (uniform, bursty, few preemptions)'))
+            out.append(Stream('conc_' + f, cases, note='2-4 real threads, 1-3 generated schedules each (uniform, bursty, few preemptions); access trace replayed through RcConc'))
         cases = self.conc_targeted(rng, 40 if thorough else 8)
-        out.append(Stream('conc_targeted', cases, note='all threads write the common payload at once; drop racing write; copy racing drop; self assignment; random schedules'))
+        out.append(Stream('conc_targeted', cases, note='all threads write the common payload at once; drop racing write; copy racing drop; clear racing drop; self assignment; random schedules'))
         cases = []
-        depths = {f: 10 for f in FLAVS} if thorough else {'str': 8, 'ptr': 8, 'var': 7, 'xml': 7}
+        depths = {f: 10 for f in FLAVS} if thorough else {'str': 7, 'ptr': 8, 'var': 7, 'xml': 7}
         for f in FLAVS:
             cases += conc_exhaustive(f, depths[f])
         out.append(Stream('conc_exh', cases, note='2 threads x 1 handle, every pair of unit programs, every schedule in {0,1}^d then to completion, d = %s' % depths))
@@ -407,42 +518,59 @@ class C09(Check):
     def targeted(self):
         t = []
         for f in FLAVS:
-            t.append(['@' + f, 'create 0 3', 'assign 0 0', 'copy 1 0', 'assign 1 1', 'assign 0 1', 'destroy 0', 'destroy 1'])
-            t.append(['@' + f, 'create 0 3', 'null 1', 'assign 0 1', 'assign 1 0', 'destroy 1', 'destroy 0'])
-            t.append(['@' + f, 'create 0 2', 'copy 1 0', 'copy 2 0', 'reset 0', 'reset 1', 'reset 2', 'reset 2'])
-        for n in (0, 1, 2, 3, 4, 7, 8):
-            t.append(['@str', 'create 0 %d' % n, 'write 0', 'write 0', 'copy 1 0', 'write 1', 'write 0', 'detach 1', 'write 0', 'write 0', 'write 0', 'write 0'])
-            t.append(['@var', 'create 0 %d' % n, 'write 0', 'copy 1 0', 'detach 1', 'write 0', 'copy 2 1', 'write 2', 'write 1'])
-            t.append(['@xml', 'create 0 %d' % n, 'write 0', 'copy 1 0', 'detach 1', 'write 0', 'copy 2 1', 'write 2', 'write 1', 'assign 2 2', 'assign 1 2'])
-        t.append(['@str', 'null 0', 'write 0', 'null 1', 'detach 1', 'copy 2 1', 'reset 1', 'reset 2', 'assign 0 1'])
-        t.append(['@var', 'null 0', 'write 0', 'null 1', 'detach 1', 'copy 2 1', 'reset 1', 'assign 0 1'])
-        t.append(['@xml', 'null 0', 'write 0', 'null 1', 'detach 1', 'copy 2 1', 'reset 1', 'assign 0 1', 'assign 0 0'])
-        t.append(['@ptr', 'create 0 1', 'create 1 2', 'swap 0 1', 'destroy 0', 'copy 2 1', 'destroy 1', 'destroy 2'])
-        t.append(['@ptr', 'create 0 1', 'fromraw 1 0', 'fromraw 2 1', 'destroy 0', 'destroy 1', 'copy 3 2', 'reset 2'])
-        t.append(['@ptr', 'create 0 1', 'null 1', 'swap 0 1', 'fromraw 2 1', 'destroy 1', 'destroy 0'])
+            for kind in KINDS[f]:
+                h = '@%s %s' % (f, kind)
+                t.append([h, 'create 0 123', 'assign 0 0', 'copy 1 0', 'assign 1 1', 'assign 0 1', 'destroy 0', 'destroy 1'])
+                t.append([h, 'create 0 123', 'null 1', 'assign 0 1', 'assign 1 0', 'destroy 1', 'destroy 0'])
+                t.append([h, 'create 0 12', 'copy 1 0', 'copy 2 0', 'reset 0', 'reset 1', 'reset 2', 'reset 2'])
+        for d in ('-', '1', '12', '123', '1234', '1234567', '12345671'):
+            t.append(['@str -', 'create 0 ' + d, 'write 0 1', 'write 0 2', 'copy 1 0', 'write 1 3', 'write 0 4', 'detach 1', 'write 0 5', 'write 0 6', 'write 0 7', 'write 0 1'])
+            for kind in KINDS['var']:
+                t.append(['@var ' + kind, 'create 0 ' + d, 'write 0 1', 'copy 1 0', 'detach 1', 'write 0 2', 'copy 2 1', 'write 2 3', 'write 1 4',
+                          'assignval 2 77', 'copy 3 2', 'assignval 3 -', 'assignval 3 5', 'assignval 2 6'])
+            t.append(['@xml element', 'create 0 ' + d, 'write 0 1', 'copy 1 0', 'detach 1', 'write 0 2', 'copy 2 1', 'write 2 3', 'write 1 4', 'assign 2 2', 'assign 1 2',
+                      'viaelem 0 1', 'viaelem 2 0', 'viaelem 2 2', 'null 3', 'viaelem 3 0', 'null 4', 'viaelem 0 4'])
+            for kind in ('list', 'map', 'array'):
+                t.append(['@var ' + kind, 'create 0 ' + d, 'create 1 76', 'viaelem 0 1', 'copy 2 0', 'viaelem 2 1', 'viaelem 1 1', 'null 3', 'viaelem 3 2', 'null 4', 'viaelem 0 4',
+                          'create 5 5', 'copy 4 5', 'viaelem 5 4'])
+            t.append(['@xml text', 'create 0 ' + d, 'copy 1 0', 'assignval 1 71', 'assignval 1 72', 'copy 2 1', 'assignval 1 -', 'assign 2 2', 'assign 1 2'])
+        t.append(['@str -', 'null 0', 'write 0 1', 'null 1', 'detach 1', 'copy 2 1', 'reset 1', 'reset 2', 'assign 0 1'])
+        for kind in KINDS['var']:
+            t.append(['@var ' + kind, 'null 0', 'write 0 1', 'null 1', 'detach 1', 'copy 2 1', 'reset 1', 'assign 0 1', 'null 3', 'assignval 3 12'])
+        t.append(['@xml element', 'null 0', 'write 0 1', 'null 1', 'detach 1', 'copy 2 1', 'reset 1', 'assign 0 1', 'assign 0 0'])
+        t.append(['@xml text', 'null 0', 'assignval 0 1', 'null 1', 'copy 2 1', 'assign 0 1', 'assign 0 0'])
+        for kind in KINDS['ptr']:
+            h = '@ptr ' + kind
+            t.append([h, 'create 0 1', 'create 1 2', 'swap 0 1', 'destroy 0', 'copy 2 1', 'destroy 1', 'destroy 2'])
+            t.append([h, 'create 0 1', 'fromraw 1 0', 'fromraw 2 1', 'destroy 0', 'destroy 1', 'copy 3 2', 'reset 2'])
+            t.append([h, 'create 0 1', 'null 1', 'swap 0 1', 'fromraw 2 1', 'destroy 1', 'destroy 0'])
+            t.append([h, 'create 0 1', 'assignraw 0 0', 'copy 1 0', 'assignraw 1 1', 'assignraw 0 1', 'destroy 0', 'assignraw 1 1', 'destroy 1'])
+            t.append([h, 'create 0 1', 'create 1 2', 'assignraw 0 1', 'null 2', 'assignraw 1 2', 'assignraw 2 0', 'destroy 0', 'destroy 2'])
         return t
 
     def conc_targeted(self, rng, nsched):
         t = []
         for f in FLAVS:
-            w = 'read 0' if f == 'ptr' else 'write 0'
+            w = 'read 0' if f == 'ptr' else 'write 0 5'
             fams = [
                 [[w], [w], [w]],                                              # detach at ref = number of threads
                 [['drop 0'], ['drop 0'], ['drop 0']],                         # who releases?
+                [['reset 0'], ['drop 0'], ['reset 0']],                       # clear() racing the last drop
                 [[w, 'drop 0'], ['drop 0'], ['copy 1 0', 'drop 0', 'drop 1']],
                 [['copy 1 0', 'drop 1', 'copy 1 0', 'drop 1', 'drop 0'], ['assign 0 0', w, 'drop 0']],
-                [['copy 1 0', w, 'assign 0 1', 'drop 1', 'drop 0'], [w, w, 'copy 1 0', 'assign 1 0', 'drop 0', 'drop 1']],
+                [['copy 1 0', w, 'assign 0 1', 'drop 1', 'drop 0'], [w, w, 'copy 1 0', 'assign 1 0', 'reset 0', 'drop 1']],
             ]
             for progs in fams:
-                case = ['@c' + f, 'init 4 2 ' + ' '.join('1' for _ in progs)]
-                n = 0
-                for i, p in enumerate(progs):
-                    case += ['t %d %s' % (i, o) for o in p]
-                    n += len(p)
-                for _ in range(nsched):
-                    case.append('go ' + ' '.join(map(str, gen_schedule(rng, len(progs), 4 * n + 4, rng.choice(['uniform', 'bursty', 'preempt'])))))
-                case.append('free 3')
-                t.append(case)
+                for val in (['7'] if f == 'ptr' else ['12', '123']):
+                    case = [conc_head(rng, f), 'init %s 2 ' % val + ' '.join('1' for _ in progs)]
+                    n = 0
+                    for i, p in enumerate(progs):
+                        case += ['t %d %s' % (i, o) for o in p]
+                        n += len(p)
+                    for _ in range(nsched):
+                        case.append('go ' + ' '.join(map(str, gen_schedule(rng, len(progs), min(60, 4 * n + 4), rng.choice(['uniform', 'bursty', 'preempt'])))))
+                    case.append('free 3')
+                    t.append(case)
         return t
 
 
